@@ -357,6 +357,14 @@ fn supervise(prop: &str, tier: Tier, seed: u64) -> i32 {
                 }
             }
             _ => {
+                // violations the worker had already recorded before it hung or died
+                if let Ok(text) = std::fs::read_to_string(format!("{}.viol", job.out)) {
+                    for line in text.lines() {
+                        if let Ok(v) = serde_json::from_str::<Value>(line) {
+                            raw_violations.push(v);
+                        }
+                    }
+                }
                 if timed_out {
                     continue;
                 }
